@@ -118,6 +118,47 @@ func VH_C14_crash_history() {
 	vObserve("len", len(baseOut))
 }
 
+//verif:harness prop=C14 quick=1 thorough=1 merge=none models=scan,term,hash timeout=1500
+//verif:bounds secondary input of `gts annotate`: histories of 2 invocations over one cache directory on the same record (4 symbolic residues), the feature-table file (one path) holding `gene 1..2` or `gene 2..3` or `gene 1..2 /note="x"` at each invocation, chosen independently (so the file may change between the runs, or not); real annotateFunc (INSDC table parser on the file bytes, digest of what it read), ioDelegate, TryCache, cache.File, writer; each run and a third identical one compared with the same invocation under --no-cache
+//verif:assume scanner = queue of the records, in-memory file system, flate framing model, uninterpreted digests without collisions between the inputs compared, json.Marshal modelled by an injective structural encoding (the real encodePayload runs)
+func VH_C14_annotate_history() {
+	rec, data := vPlainRecord("a", 4)
+	tables := []string{"     gene            1..2\n", "     gene            2..3\n", "     gene            1..2\n                     /note=\"x\"\n"}
+	home, path := "/cache-home", "/t/feat.tbl"
+	if !vIsModel() {
+		home = vTempDir()
+		path = vTempDir() + "/feat.tbl"
+	}
+	put := func(k int) {
+		if vIsModel() {
+			vFSWrite(path, []byte(tables[k]))
+		} else if err := os.WriteFile(path, []byte(tables[k]), 0o644); err != nil {
+			panic(err)
+		}
+	}
+	stdin := append([]byte{}, data...)
+	pick := []int{vChoice("t1", 3), vChoice("t2", 3)}
+	var baseOut [][]byte
+	var baseOK []bool
+	for _, k := range pick {
+		put(k)
+		out, ok := vRunCached("annotate", annotateFunc, []string{"--no-cache", path}, []gts.Sequence{rec}, stdin, false, home)
+		baseOut, baseOK = append(baseOut, out), append(baseOK, ok)
+	}
+	vCover("baseline")
+	vAssert("baseline-ok", vAnd(baseOK[0], baseOK[1]))
+	for i, k := range pick {
+		put(k)
+		out, ok := vRunCached("annotate", annotateFunc, []string{path}, []gts.Sequence{rec}, stdin, false, home)
+		vAssert("same-exit-status", ok == baseOK[i])
+		vAssert("same-output", vSameB(out, baseOut[i]))
+	}
+	out, ok := vRunCached("annotate", annotateFunc, []string{path}, []gts.Sequence{rec}, stdin, false, home)
+	vAssert("warm-same-exit-status", ok == baseOK[1])
+	vAssert("warm-same-output", vSameB(out, baseOut[1]))
+	vObserve("len", len(baseOut[0]))
+}
+
 func vSameSeqs(a, b []gts.Sequence) bool {
 	if len(a) != len(b) {
 		return false
